@@ -565,21 +565,23 @@ def sos_nonneg(ctx, ident, rad, clause, fn):
 def dimer(ctx, certified, replay_for, f_dim, thorough):
     lab = "core.dimer.Dimer.calculate_transform/ensures/"
     rp = replay_for("dimer", "dimer_raises", "dimer_none")
-    for N in ([3, 4, 6] if thorough else [3, 4]):
+    for N, stale in ([(3, False), (4, False), (6, False), (3, True)] if thorough else [(3, False), (4, False), (3, True)]):
         log = []
         I = ctx.interp(models=MODELS, contracts={NUM + ".kabsch_rotation_matrix": kabsch_contract(log)})
         PA, PB = real_matrix("xa", N, 3), real_matrix("xb", N, 3)
         ZA, ZB = [z3.Int(f"za{i}") for i in range(N)], [z3.Int(f"zb{i}") for i in range(N)]
-        sfx = f"/N{N}"
+        sfx = f"/N{N}" + ("/recalculated_over_a_stored_transform" if stale else "")
+        STALE = (farr(real_matrix("staleR", 3, 3)), farr(reals("stalet", 3)))
 
         def mk(I2, P, Z):
             els = [shell(I2, "chmpy.core.element", "Element", atomic_number=zz) for zz in Z]
             return shell(I2, "chmpy.core.molecule", "Molecule", positions=farr(P), elements=els, properties={})
 
-        def ob(N=N, PA=PA, PB=PB, ZA=ZA, ZB=ZB, sfx=sfx, log=log, I=I):
+        def ob(N=N, PA=PA, PB=PB, ZA=ZA, ZB=ZB, sfx=sfx, log=log, I=I, stale=stale, STALE=STALE):
             def thunk(I2, _a, kw):
                 del log[:]
-                d = shell(I2, DIM, "Dimer", a=mk(I2, PA, ZA), b=mk(I2, PB, ZB), frac_shift=None)
+                extra = {"transform_ab": STALE} if stale else {}       # an arbitrary transform left by an earlier calculation: the result must not depend on it
+                d = shell(I2, DIM, "Dimer", a=mk(I2, PA, ZA), b=mk(I2, PB, ZB), frac_shift=None, **extra)
                 ret = I2.call(I2.getattr(d, "calculate_transform"), [])
                 return d, ret, list(log)
             res = I.explore(thunk)
